@@ -26,7 +26,14 @@ from pyvolutionary.helpers import sort_and_trim  # noqa: E402
 from pyvolutionary.models import BaseOptimizationConfig, ContinuousVariable, Task  # noqa: E402
 
 RAW = {1: 1.0, 2: 2.0, 3: 3.0, 4: 0.0, 5: 4.0, 6: math.nan}
-FTS = {"FT1": [2, -1, 2], "FT2": [0, 3, -2]}
+FTS = {"FT1": [2, -1, 2], "FT2": [0, 3, -2], "FT3": [1000, -1, -1000]}
+INFC = 1000        # the model's code of an infinite objective value
+
+
+def val(code) -> float:
+    """model cost code -> the real value"""
+    c = float(code)
+    return math.inf if c == INFC else -math.inf if c == -INFC else c
 
 
 class KindTask(Task):
@@ -34,7 +41,7 @@ class KindTask(Task):
         self.data["calls"].append(x[0])
         v = x[0]
         if isinstance(v, float) and v in (1.0, 2.0, 3.0):
-            return float(self.data["ft"][int(v) - 1])
+            return val(self.data["ft"][int(v) - 1])
         return 0.0                      # outside the space: the model's F is 0 there too
 
 
@@ -109,13 +116,16 @@ def replay(st: dict, direction: str, ft: list[int], N: int):
                     data={"calls": [], "ft": ft})
     o = KindOpt(BaseOptimizationConfig(population_size=N, max_cycles=max(steps, 1), fitness_error=None))
     o._script = act
-    with contextlib.redirect_stdout(io.StringIO()):
+    import warnings
+    import numpy as np
+    with contextlib.redirect_stdout(io.StringIO()), warnings.catch_warnings(), np.errstate(all="ignore"):
+        warnings.simplefilter("ignore")
         res = o.optimize(task)
     sign = 1 if direction == "min" else -1
     bad = []
 
     def mpop(p):       # model population -> multiset of (position, internal cost)
-        return Counter((float(a["p"]), float(a["c"])) for a in p)
+        return Counter((float(a["p"]), val(a["c"])) for a in p)
     snaps_m = st["snaps"]
     if len(o._snaps) != len(snaps_m):
         bad.append(("C04.replay", f"{len(o._snaps)} snapshots, model has {len(snaps_m)}"))
@@ -130,7 +140,7 @@ def replay(st: dict, direction: str, ft: list[int], N: int):
         bad.append(("C15.replay", f"{len(res.evolution)} recorded generations, model has {len(evo_m)}"))
     for g, (real, model) in enumerate(zip(res.evolution, evo_m)):
         r = Counter((a.position[0], a.cost) for a in real.agents)
-        mm = Counter((float(a["p"]), float(a["u"])) for a in model)
+        mm = Counter((float(a["p"]), val(a["u"])) for a in model)
         if r != mm:
             bad.append(("C15.replay", f"recorded generation {g}: {sorted(r.elements())} vs model {sorted(mm.elements())}"))
     calls_r = {c if not (isinstance(c, float) and math.isnan(c)) else "nan" for c in task.data["calls"]}
@@ -139,17 +149,19 @@ def replay(st: dict, direction: str, ft: list[int], N: int):
         bad.append(("C05.replay", f"objective arguments {sorted(map(str, calls_r))} vs model {sorted(calls_m)}"))
     if st["pc"] == "done":
         b = res.best_solution
-        if (b.position[0], b.cost) != (float(st["best"]["p"]), float(st["best"]["u"])):
+        if (b.position[0], b.cost) != (float(st["best"]["p"]), val(st["best"]["u"])):
             # ties: the model picks one optimal member; any member with the same cost is the same verdict
             last = st["evo"][-1]
-            costs = [a["u"] for a in last]
+            costs = [val(a["u"]) for a in last]
             opt = min(costs) if direction == "min" else max(costs)
-            if not (b.cost == float(opt) and any(float(a["p"]) == b.position[0] and float(a["u"]) == b.cost for a in last)):
+            if not (b.cost == opt and any(float(a["p"]) == b.position[0] and val(a["u"]) == b.cost for a in last)):
                 bad.append(("C03.replay", f"best_solution {(b.position[0], b.cost)} vs model {st['best']}"))
     return bad
 
 
-GEN_CFGS = [("PopMachine_gen.cfg", "min", "FT1", 2), ("PopMachine_gen_max.cfg", "max", "FT2", 2)]
+GEN_CFGS = [("PopMachine_gen.cfg", "min", "FT1", 2), ("PopMachine_gen_max.cfg", "max", "FT2", 2),
+            # an objective that is +-infinity at two points of the space (the property quantifies over every objective value)
+            ("PopMachine_gen_inf.cfg", "min", "FT3", 2), ("PopMachine_gen_inf_max.cfg", "max", "FT3", 2)]
 
 
 def run(chk: Check, pid: str):
